@@ -2,6 +2,7 @@ package main
 
 import (
 	"fmt"
+	"strings"
 
 	"golang.org/x/tools/go/ssa"
 )
@@ -10,7 +11,7 @@ func init() {
 	register(&propInfo{
 		ID:          "C01",
 		Run:         runC01,
-		MinObl:      12,
+		MinObl:      21,
 		Explanation: "Decided (structural necessary conditions of single-use + replay revocation): R1 in the code-redeem function the code is invalidated before any token session is created, the invalidate error is tested, both lie inside one open transaction and use the transaction context, and the invalidate key is the looked-up signature; R2 in the code-validate function the invalidated-code branch calls RevokeAccessToken and RevokeRefreshToken with the stored request's id and exits with an ErrInvalidGrant-derived error, and no success exit is reachable without the invalidated-code test having been evaluated false; R3 request-id continuity (SetID(GetID(stored)) on every success path of code-validate and refresh-validate; the requester persisted by the refresh-issue function carries GetID(request)); R4 the validate phase mutates storage only in the replay branch; R5 reference-store contract of MemoryStore (active flag written true only on create, invalidate stores active=false, lookup returns request+ErrInvalidatedAuthorizeCode exactly on !active, create writes table and request-id index, revoke resolves through the index). NOT decided: that every descendant token is inactive in every history (needs the store's dynamic state), other stores, concurrency of two redemptions (C19).",
 	})
 }
@@ -359,6 +360,11 @@ func c01R5(c *Ctx) {
 			}
 			wrote := false
 			for _, e := range p.Events {
+				// the record keeps everything but the flag: the replay branch revokes by the stored
+				// request's id, so the invalidated entry must still be the request that was stored
+				if e.Kind == "lstore" && e.Name != "active" && len(e.Args) == 2 && typeShortOfAddr(e.Args[0]) == "StoreAuthorizeCode" {
+					bad = true
+				}
 				if e.Kind == "mapupdate" && isStoreMap(e.Args[0], "AuthorizeCodes") {
 					if activeOf(p, e.Args[2], e) == "false" {
 						wrote = true
@@ -373,7 +379,7 @@ func c01R5(c *Ctx) {
 				bad = true
 			}
 		}
-		c.Check(ok && !bad, rule, role, fn, "invalidate-deactivates", "every success path of InvalidateAuthorizeCodeSession stores the record with active=false", "a success path does not store active=false", nil)
+		c.Check(ok && !bad, rule, role, fn, "invalidate-deactivates", "every success path of InvalidateAuthorizeCodeSession stores the record it found with active=false and nothing else changed", "a success path does not store active=false, or rewrites another field of the record", nil)
 	} else {
 		c.RoleUnmatched(rule, "store.InvalidateAuthorizeCodeSession", "MemoryStore method")
 	}
@@ -626,4 +632,17 @@ func checkSetID(c *Ctx, rule, role, lookup string, fns []*ssa.Function) {
 		}
 		c.Check(ok, rule, role, fn, "setid", "on every success path the request id is set to GetID of the stored request (tokens are indexed under the grant's id)", "a success path does not execute request.SetID(stored.GetID())", w)
 	}
+}
+
+// typeShortOfAddr: the name of the struct type a field address belongs to ("" if unknown).
+func typeShortOfAddr(a *Term) string {
+	if a == nil || a.Op != "addr" || len(a.Args) != 1 || a.Args[0].Type == nil {
+		return ""
+	}
+	t := a.Args[0].Type.String()
+	t = strings.TrimPrefix(t, "*")
+	if i := strings.LastIndex(t, "."); i >= 0 {
+		t = t[i+1:]
+	}
+	return t
 }
